@@ -196,8 +196,12 @@ package app
 //@   trusted
 //@ func config.FormatValidationText
 //@   trusted
-//@ func requiresRestartForReload
+//@ func *Equal
 //@   trusted
+//@ func queueBackendForCompiled
+//@   trusted
+//@ func requiresRestartForReload
+//@   ensures [C18:a_reload_applied_without_restart_changed_nothing_the_process_cannot_reapply] !result ==> compiled.QueueLimits.MaxDepth == running.QueueLimits.MaxDepth && compiled.QueueLimits.DropPolicy == running.QueueLimits.DropPolicy && compiled.Defaults.MaxBodyBytes == running.Defaults.MaxBodyBytes && compiled.Defaults.MaxHeaderBytes == running.Defaults.MaxHeaderBytes && compiled.PullAPI.MaxBatch == running.PullAPI.MaxBatch && compiled.PullAPI.MaxLeaseTTL == running.PullAPI.MaxLeaseTTL && compiled.PullAPI.DefaultLeaseTTL == running.PullAPI.DefaultLeaseTTL && compiled.Defaults.PublishPolicy.RequireActor == running.Defaults.PublishPolicy.RequireActor && compiled.Defaults.PublishPolicy.RequireRequestID == running.Defaults.PublishPolicy.RequireRequestID && compiled.Defaults.PublishPolicy.DirectEnabled == running.Defaults.PublishPolicy.DirectEnabled && compiled.Defaults.PublishPolicy.ManagedEnabled == running.Defaults.PublishPolicy.ManagedEnabled && compiled.HasPullRoutes == running.HasPullRoutes && compiled.HasDeliverRoutes == running.HasDeliverRoutes
 //@ spec
 //@ ufunc loadedSecret(ref string) []byte
 // what LoadRef returns for a reference is a function of the reference (environment, files and vault do not change within one load) and is non-empty
@@ -316,3 +320,20 @@ package app
 //@ func hmacSigningConfigEqual
 //@   ensures [C17:signing_reported_equal_means_same_secret_source_selection_and_headers] result && a != nil && b != nil ==> a.SecretRef == b.SecretRef && a.SecretSelection == b.SecretSelection && a.SignatureHeader == b.SignatureHeader && a.TimestampHeader == b.TimestampHeader && len(a.SecretVersions) == len(b.SecretVersions) && forall j int :: 0 <= j && j < len(a.SecretVersions) ==> a.SecretVersions[j].ID == b.SecretVersions[j].ID && a.SecretVersions[j].Ref == b.SecretVersions[j].Ref && a.SecretVersions[j].ValidFrom == b.SecretVersions[j].ValidFrom && a.SecretVersions[j].ValidUntil == b.SecretVersions[j].ValidUntil && a.SecretVersions[j].HasUntil == b.SecretVersions[j].HasUntil
 //@   ensures [C17:signing_switched_on_or_off_is_a_change] result ==> (a == nil) == (b == nil)
+
+// ---- C12/C16/C06/C18: what the running process cannot re-apply is compared soundly (reported equal => equal), so a reload
+// that changes it is never applied half-way ----
+//@ func queueLimitsEqual
+//@   ensures [C12:limits_reported_equal_are_equal] result ==> a.MaxDepth == b.MaxDepth && a.DropPolicy == b.DropPolicy
+//@ func retryConfigEqual
+//@   ensures [C06:retry_reported_equal_is_equal] result ==> a.Type == b.Type && a.Max == b.Max && a.Base == b.Base && a.Cap == b.Cap
+//@ func egressRulesEqual
+//@   loop 1 invariant [equal_so_far] len(a) == len(b) && rangeindex < len(a) && forall j int :: 0 <= j && j <= rangeindex ==> a[j].Host == b[j].Host && a[j].Subdomains == b[j].Subdomains && a[j].IsCIDR == b[j].IsCIDR
+//@   ensures [C16:rules_reported_equal_are_equal] result ==> len(a) == len(b) && forall j int :: 0 <= j && j < len(a) ==> a[j].Host == b[j].Host && a[j].Subdomains == b[j].Subdomains && a[j].IsCIDR == b[j].IsCIDR
+//@ func egressPolicyEqual
+//@   ensures [C16:policy_reported_equal_has_the_same_switches_and_rule_lists] result ==> a.HTTPSOnly == b.HTTPSOnly && a.Redirects == b.Redirects && a.DNSRebindProtection == b.DNSRebindProtection && len(a.Allow) == len(b.Allow) && len(a.Deny) == len(b.Deny) && (forall j int :: 0 <= j && j < len(a.Deny) ==> a.Deny[j].Host == b.Deny[j].Host && a.Deny[j].Subdomains == b.Deny[j].Subdomains && a.Deny[j].IsCIDR == b.Deny[j].IsCIDR) && (forall j int :: 0 <= j && j < len(a.Allow) ==> a.Allow[j].Host == b.Allow[j].Host && a.Allow[j].Subdomains == b.Allow[j].Subdomains && a.Allow[j].IsCIDR == b.Allow[j].IsCIDR)
+//@ func slicesEqual
+//@   loop 1 invariant [equal_so_far] len(a) == len(b) && rangeindex < len(a) && forall j int :: 0 <= j && j <= rangeindex ==> a[j] == b[j]
+//@   ensures [lists_reported_equal_are_equal] result ==> len(a) == len(b) && forall j int :: 0 <= j && j < len(a) ==> a[j] == b[j]
+//@ func publishPolicyEqual
+//@   ensures [C15:publish_policy_reported_equal_is_equal] result ==> a.DirectEnabled == b.DirectEnabled && a.ManagedEnabled == b.ManagedEnabled && a.AllowPullRoutes == b.AllowPullRoutes && a.AllowDeliverRoutes == b.AllowDeliverRoutes && a.RequireActor == b.RequireActor && a.RequireRequestID == b.RequireRequestID && a.FailClosed == b.FailClosed && len(a.ActorAllowlist) == len(b.ActorAllowlist) && len(a.ActorPrefixes) == len(b.ActorPrefixes) && (forall j int :: 0 <= j && j < len(a.ActorAllowlist) ==> a.ActorAllowlist[j] == b.ActorAllowlist[j]) && (forall j int :: 0 <= j && j < len(a.ActorPrefixes) ==> a.ActorPrefixes[j] == b.ActorPrefixes[j])
